@@ -147,6 +147,17 @@ func (a *Analyzer) onRPC(n *nodeState, r *ev.Rec) {
 	cid := n.key.cid
 	termBefore, leaderBefore := n.st.Term, n.st.Leader
 	hadSt := n.hasSt
+	// engine B: the request of the wire-level peer that this is (requests on
+	// all its connections are written and handled one after the other)
+	var wire *ev.Rec
+	if len(a.wireQ) > 0 && r.RPC != "identity" {
+		if w := a.wireQ[0]; w.RPC == r.RPC && w.Src == r.Src && w.ReqTerm == r.ReqTerm {
+			wire = w
+			a.wireQ = a.wireQ[1:]
+		} else {
+			a.wireQ = nil // out of step (a request was lost or came late)
+		}
+	}
 
 	// C05: reply terms never go backwards
 	a.checkTerm(n, r.RespTerm, r.Q, "reply")
@@ -243,7 +254,7 @@ func (a *Analyzer) onRPC(n *nodeState, r *ev.Rec) {
 		if r.RPC == "append" && r.Res == "success" {
 			a.stat("append-acks")
 			// engine B: an acknowledged request's entries are in the log
-			if w := a.lastWire; w != nil && w.RPC == "append" && w.Src == r.Src && w.ReqTerm == r.ReqTerm && w.A == r.A {
+			if w := wire; w != nil && w.RPC == "append" && w.Src == r.Src && w.ReqTerm == r.ReqTerm && w.A == r.A {
 				for _, we := range w.Log {
 					if we.Index <= st.Snap {
 						continue
